@@ -168,6 +168,30 @@ def balanced_end(text, i, open_ch="(", close_ch=")"):
     raise LostAnchor("unbalanced brackets in source text")
 
 
+
+def anchor_rx(pat):
+    """compile an anchor regex; a literal space outside a character class stands for any white space (`\\s+`), so that
+    re-flowing the source (rustfmt with another width, a line break after `=`) does not lose the anchor"""
+    out, i, n, in_class = "", 0, len(pat), False
+    while i < n:
+        ch = pat[i]
+        if ch == "\\" and i + 1 < n:
+            out += pat[i : i + 2]
+            i += 2
+            continue
+        if ch == "[":
+            in_class = True
+        elif ch == "]":
+            in_class = False
+        if ch == " " and not in_class:
+            # keep quantifiers that follow the space (` *`, ` ?`) meaningful: `\s` + quantifier, else `\s+`
+            nxt = pat[i + 1] if i + 1 < n else ""
+            out += "\\s" if nxt in "*+?{" else "\\s+"
+        else:
+            out += ch
+        i += 1
+    return re.compile(out, re.S)
+
 LOG_RE = re.compile(r"(?<![\w:!])(?:log::)?(?:debug|warn|trace|info|error)!\s*\(")
 ASSERT_EQ_RE = re.compile(r"(?<![\w:!])(debug_assert_eq|assert_eq|assert_ne|debug_assert_ne|debug_assert)!\s*\(")
 
@@ -454,7 +478,7 @@ def render_fn(fs, out, unit, log):
             m = re.match(r"/(.+)/\s*(\w*)\s*$", arg)
             if not m:
                 raise SystemExit(f"template line {tline}: bad loopat {arg}")
-            ms = list(re.compile(m.group(1), re.S).finditer(text, body_s, body_e))
+            ms = list(anchor_rx(m.group(1)).finditer(text, body_s, body_e))
             if kind == "loopat?" and len(ms) == 0:
                 continue
             if len(ms) != 1:
@@ -500,7 +524,7 @@ def render_fn(fs, out, unit, log):
             m = re.match(r"/(.+)/(?:#(\d+)of(\d+))?\s*(.*)$", arg)
             if not m:
                 raise SystemExit(f"template line {tline}: bad anchor {arg}")
-            rx = re.compile(m.group(1), re.S)
+            rx = anchor_rx(m.group(1))
             ms = list(rx.finditer(text, body_s, body_e))
             # `replace?`: optional rewrite -- if the construct it works around is no longer in the text, the text is taken as is
             # (so that an edit removing the construct is *verified*, not reported as a lost anchor)
@@ -765,6 +789,12 @@ def build(unit_dir, out_path):
                     ty2 = re.sub(r"&(?!\s*')\s*", "&'static ", mt.group(2))
                     log["rewrites"].append({"rule": "R14", "fn": path, "from": norm_ws(mt.group(2)), "to": norm_ws(ty2), "why": "elided lifetime in a const/static type is 'static"})
                     t = mt.group(1) + ty2 + mt.group(3)
+            if o.get("hide_value") and rec["kind"] in ("const", "static"):
+                # additive item option `hide_value` (unit xlsfml): `#[verifier::external_body]` in front of a const/static -- Verus then knows
+                # the item's TYPE (for an array: its length) but not its value.  Nothing is assumed by this (facts are removed, none added);
+                # it keeps big data tables (485-entry FTAB) out of every SMT query of the unit (measured: 22 s -> 3 s per query).
+                log["rewrites"].append({"rule": "hide_value", "fn": path, "from": "", "to": "#[verifier::external_body]", "why": "value of the table hidden from the verifier (only its type/length is used)"})
+                t = "#[verifier::external_body] " + t
             out.add(t + "\n", {"type": "src", "file": relfile, "fn": path, "unit": unit, "src_byte": st, "item": True})
             log["items"].append({"file": relfile, "item": path, "kind": kind, "sha256": hashlib.sha256(t.encode()).hexdigest()})
         elif k == "impl":
